@@ -4,9 +4,15 @@
 // when called from a goroutine the explorer does not control, every type behaves exactly like
 // its sync counterpart (it delegates to one). Inside an exploration lock operations are
 // scheduling points and blocking is visible to the scheduler (a blocked thread is not enabled).
+//
+// Lock operations are named by their static call site and are subject to the same occurrence
+// cap as variable-access points; an operation that would block is always a scheduling point.
 package vsync
 
 import (
+	"runtime"
+	"strconv"
+	"strings"
 	"sync"
 	"sync/atomic"
 
@@ -21,6 +27,18 @@ type Cond = sync.Cond
 
 func NewCond(l Locker) *Cond { return sync.NewCond(l) }
 
+// callerSite names the static call site of a lock operation (two frames up: the user of vsync).
+func callerSite(op string) string {
+	_, file, line, ok := runtime.Caller(2)
+	if !ok {
+		return op
+	}
+	if i := strings.LastIndex(file, "/internal/"); i >= 0 {
+		file = file[i+1:]
+	}
+	return op + "@" + file + ":" + strconv.Itoa(line)
+}
+
 // Mutex.
 type Mutex struct {
 	real sync.Mutex
@@ -32,7 +50,10 @@ func (m *Mutex) Lock() {
 		m.real.Lock()
 		return
 	}
-	sched.Block("Mutex.Lock", func() bool { return !m.held })
+	site := callerSite("Mutex.Lock")
+	if m.held || sched.Candidate(site) {
+		sched.Block(site, func() bool { return !m.held })
+	}
 	m.held = true
 }
 
@@ -45,14 +66,14 @@ func (m *Mutex) Unlock() {
 		panic("vsync: unlock of unlocked mutex")
 	}
 	m.held = false
-	sched.Point("Mutex.Unlock")
+	sched.Point(callerSite("Mutex.Unlock"))
 }
 
 func (m *Mutex) TryLock() bool {
 	if !sched.Controlled() {
 		return m.real.TryLock()
 	}
-	sched.Point("Mutex.TryLock")
+	sched.Point(callerSite("Mutex.TryLock"))
 	if m.held {
 		return false
 	}
@@ -72,7 +93,10 @@ func (m *RWMutex) Lock() {
 		m.real.Lock()
 		return
 	}
-	sched.Block("RWMutex.Lock", func() bool { return !m.writer && m.readers == 0 })
+	site := callerSite("RWMutex.Lock")
+	if m.writer || m.readers != 0 || sched.Candidate(site) {
+		sched.Block(site, func() bool { return !m.writer && m.readers == 0 })
+	}
 	m.writer = true
 }
 
@@ -82,7 +106,7 @@ func (m *RWMutex) Unlock() {
 		return
 	}
 	m.writer = false
-	sched.Point("RWMutex.Unlock")
+	sched.Point(callerSite("RWMutex.Unlock"))
 }
 
 func (m *RWMutex) RLock() {
@@ -90,7 +114,10 @@ func (m *RWMutex) RLock() {
 		m.real.RLock()
 		return
 	}
-	sched.Block("RWMutex.RLock", func() bool { return !m.writer })
+	site := callerSite("RWMutex.RLock")
+	if m.writer || sched.Candidate(site) {
+		sched.Block(site, func() bool { return !m.writer })
+	}
 	m.readers++
 }
 
@@ -100,7 +127,7 @@ func (m *RWMutex) RUnlock() {
 		return
 	}
 	m.readers--
-	sched.Point("RWMutex.RUnlock")
+	sched.Point(callerSite("RWMutex.RUnlock"))
 }
 
 func (m *RWMutex) RLocker() Locker { return (*rlocker)(m) }
@@ -123,7 +150,7 @@ func (o *Once) Do(f func()) {
 		o.done.Store(true)
 		return
 	}
-	sched.Point("Once.Do")
+	sched.Point(callerSite("Once.Do"))
 	if o.done.Load() {
 		return
 	}
